@@ -698,4 +698,123 @@ theorem phase2_notify_reorg {n : Node} {b : Block} (hS : Static c w addrs own') 
 
 end events
 
+-- ------------------------------------------------------------------ histories: reorganisations above the floor
+
+/-- the floor after an event: set to the tip height by the first removal step, kept afterwards -/
+def floorAfter (fl : Option Nat) (x : ISt) : IEv → Option Nat
+  | .rem => some (fl.getD (x.node.chain.length - 1))
+  | _ => fl
+
+/-- the domain of `remove_interleaved_above`, threaded along the history; `fl` = the floor once a removal step has run
+    (`none` before): a removal step needs the pending-side clause; a tip notification — ANY announced node state,
+    extension or reorganisation — must, once the floor is set, agree with the stored chain up to the floor (it forks
+    above it: only blocks connected after the first removal step are rolled back); unconfirmed transactions anywhere;
+    a restarted follower reports the stored best block.  (`b.height = 0 → …` excludes a re-announcement of the
+    genesis block that would be taken for an extension.) -/
+def DomC (limit : Nat) (c : Ctx) (w : Wid) (addrs : List Addr) (G : Block) : Option Nat → ISt → List IEv → Prop
+  | _, _, [] => True
+  | fl, x, ev :: evs =>
+    (match ev with
+      | .rem => PendOK addrs x.s x.node.chain
+      | .notify n b => NodeOK c.own G x.node.known n b ∧ IdInj (x.node.chain ++ n.chain) ∧
+          (b.height = 0 → b.prev ≠ x.v.best.hash) ∧
+          (∀ f, fl = some f → x.node.chain.take (f + 1) = n.chain.take (f + 1))
+      | .recv _ => True
+      | .restart v => v.best = x.v.best) ∧
+    ∀ x', istep limit c w addrs x ev = some x' → DomC limit c w addrs G (floorAfter fl x ev) x' evs
+
+section
+variable {limit : Nat} {c : Ctx} {w : Wid} {addrs : List Addr} {own' : Own} {G : Block}
+
+/-- the invariant of a history with a floor -/
+def PhaseF (c : Ctx) (w : Wid) (addrs : List Addr) (own' : Own) (G : Block) (x : ISt) : Option Nat → Prop
+  | none => Phase1 c w G x
+  | some f => Phase2F c w addrs own' G f x
+
+theorem phaseF_fin {x : ISt} {fl : Option Nat} (h : PhaseF c w addrs own' G x fl) : x.fin = false := by
+  cases fl with
+  | none => exact h.cf.fin
+  | some f =>
+    obtain ⟨_, _, _, _, _, _, _, hcf⟩ := h
+    exact hcf.fin
+
+theorem domC_run (hS : Static c w addrs own') (ws' : List Wid) (hws : ∀ y ∈ ws', y ∈ c.wallets) :
+    ∀ (evs : List IEv) (fl : Option Nat) (x xe : ISt), PhaseF c w addrs own' G x fl →
+      DomC limit c w addrs G fl x evs → irun limit c w addrs x evs = some xe → xe.fin = true →
+      Inv { c with own := own', wallets := ws', node := xe.node } xe.s xe.node.chain := by
+  intro evs
+  induction evs with
+  | nil =>
+    intro fl x xe hP _ h hfin
+    simp only [irun, Option.some.injEq] at h
+    subst h
+    have := phaseF_fin hP
+    rw [hfin] at this; cases this
+  | cons ev evs ih =>
+    intro fl x xe hP hD h hfin
+    obtain ⟨hev, hdom⟩ := hD
+    simp only [irun] at h
+    cases hs : istep limit c w addrs x ev with
+    | none => rw [hs] at h; cases h
+    | some x1 =>
+      rw [hs] at h
+      have hdom' := hdom x1 hs
+      cases ev with
+      | rem =>
+        have hnode : x1.node = x.node := istep_node hs
+        have hcore : (x1.fin = false → PhaseF c w addrs own' G x1 (floorAfter fl x .rem)) ∧
+            (x1.fin = true → ∀ ws', (∀ y ∈ ws', y ∈ c.wallets) →
+              Inv { c with own := own', wallets := ws', node := x1.node } x1.s x1.node.chain) := by
+          cases fl with
+          | none =>
+            obtain ⟨h1, h2⟩ := phase1_rem hS hP hev hs
+            refine ⟨fun hf => ?_, h2⟩
+            have := phase2F_of_phase2 (h1 hf)
+            rw [hnode] at this
+            exact this
+          | some f => exact phase2F_rem hS hP hev hs
+        cases hf1 : x1.fin with
+        | false => exact ih _ x1 xe (hcore.1 hf1) hdom' h hfin
+        | true =>
+          have := irun_fin hf1 h
+          subst this
+          exact hcore.2 hf1 ws' hws
+      | notify n b =>
+        obtain ⟨hN, hinj, hg0, hfloor⟩ := hev
+        cases fl with
+        | none =>
+          obtain ⟨x1', hs', hP'⟩ := phase1_notify (limit := limit) (addrs := addrs) hS.keys hP hN hinj hg0
+          rw [hs] at hs'
+          injection hs' with hs'
+          subst hs'
+          exact ih none x1 xe hP' hdom' h hfin
+        | some f =>
+          obtain ⟨x1', hs', hP'⟩ := phase2_notify_reorg (limit := limit) hS hP hN hinj (hfloor f rfl) hg0
+          rw [hs] at hs'
+          injection hs' with hs'
+          subst hs'
+          exact ih (some f) x1 xe hP' hdom' h hfin
+      | recv t =>
+        cases fl with
+        | none => exact ih none x1 xe (phase1_recv hP hs) hdom' h hfin
+        | some f => exact ih (some f) x1 xe (phase2F_recv hP hs) hdom' h hfin
+      | restart v =>
+        cases fl with
+        | none => exact ih none x1 xe (phase1_restart hev hP hs) hdom' h hfin
+        | some f => exact ih (some f) x1 xe (phase2F_restart hev hP hs) hdom' h hfin
+
+/-- **removal interleaved with the follower, reorganisations above the floor**: from a store that follows the chain with
+    `w` flagged, any history inside `DomC` — ANY announced node states before the first removal step; after it,
+    extensions and reorganisations that fork above the tip height at the first removal step; unconfirmed transactions
+    and restarts anywhere — that ends with the finishing step leaves C01's invariant for the table without `w`, on the
+    chain the follower was last told about.  (`MW.Lemmas.RemoveMidCex`'s history is outside `DomC` exactly at the floor
+    clause: its reorganisation replaces B1 and B2, connected BEFORE the first removal step.) -/
+theorem remove_interleaved_above {x0 x : ISt} {evs : List IEv} {ws' : List Wid}
+    (hP : Phase1 c w G x0) (hS : Static c w addrs own') (hD : DomC limit c w addrs G none x0 evs)
+    (hrun : irun limit c w addrs x0 evs = some x) (hfin : x.fin = true) (hws : ∀ y ∈ ws', y ∈ c.wallets) :
+    Inv { c with own := own', wallets := ws', node := x.node } x.s x.node.chain :=
+  domC_run hS ws' hws evs none x0 x hP hD hrun hfin
+
+end
+
 end MW.Lemmas.RemoveInterleave
